@@ -177,7 +177,13 @@ pub fn import<R: std::io::Read>(
                         source: commodity.into_owned(),
                         target: secondary_commodity.to_owned(),
                     },
-                    amount / rate,
+                    amount.checked_div(rate).ok_or_else(|| {
+                        ImportError::Other(format!(
+                            "cannot divide the amount by the rate {} @ line {}",
+                            rate,
+                            pos.line()
+                        ))
+                    })?,
                 ),
             };
             txn.add_rate(rate_key, rate)?;
